@@ -50,6 +50,8 @@ def op_strategy():
         st.tuples(st.just('enc_key'), st.integers(0, 2), cipher, st.sampled_from(RECIPS)),
         st.tuples(st.just('enc_key'), st.integers(0, 2), cipher, st.sampled_from(RECIPS)),
         st.tuples(st.just('enc_multi'), st.integers(0, 2), cipher, st.lists(st.sampled_from(RECIPS), min_size=2, max_size=3, unique=True)),
+        # one message for several passphrases (and optionally a key recipient as well) sharing a session key
+        st.tuples(st.just('enc_multipass'), st.integers(0, 2), cipher, st.sampled_from([8, 2, 10]), st.lists(st.integers(0, 2), min_size=2, max_size=3), st.sampled_from([None, None] + RECIPS[:2])),
         st.tuples(st.just('protect'), st.integers(0, 1), st.sampled_from([7, 9, 3, 13]), st.sampled_from([8, 2]), st.integers(0, 2)),
         st.tuples(st.just('reimport'), st.integers(0, 1)),
     ).map(list)
@@ -92,7 +94,7 @@ def run_history(ops, rec):
         where = 'op %d %s' % (n, op[0])
         kinds.append(op[0])
         try:
-            if op[0] in ('enc_pass', 'enc_key', 'enc_multi'):
+            if op[0] in ('enc_pass', 'enc_key', 'enc_multi', 'enc_multipass'):
                 msg = msgs[op[1]]
                 cipher = op[2]
                 C_ = SymmetricKeyAlgorithm(cipher)
@@ -102,6 +104,13 @@ def run_history(ops, rec):
                     elif op[0] == 'enc_key':
                         sub = subs[keypool.ref_public(op[3]).fingerprint.hex().upper()]
                         e = sub.encrypt(msg, cipher=C_)
+                    elif op[0] == 'enc_multipass':
+                        sk = C_.gen_key()
+                        e = msg
+                        for pwi in op[4]:
+                            e = e.encrypt(PWS[pwi], cipher=C_, hash=HashAlgorithm(op[3]), sessionkey=sk)
+                        if op[5] is not None:
+                            e = subs[keypool.ref_public(op[5]).fingerprint.hex().upper()].encrypt(e, cipher=C_, sessionkey=sk)
                     else:
                         sk = C_.gen_key()
                         e = msg
@@ -113,11 +122,22 @@ def run_history(ops, rec):
                 pm = grammar.parse_message(blob)
                 # recover the session key through every recipient
                 sessions = []
+                pwq = [PWS[i] for i in op[4]] if op[0] == 'enc_multipass' else [PWS[op[4]]] if op[0] == 'enc_pass' else []
                 for p in pm.esks:
                     if p.tag == 3:
                         k = renc.parse_skesk(p.body)
                         note('salt', k.s2k.salt, where + ' SKESK salt', drawn, 8)
-                        symid, key = renc.skesk_decrypt(k, PWS[op[4]])
+                        # the order of the session-key packets is PGPy's business: each must open under one of the passphrases used
+                        symid = key = None
+                        for cand_pw in pwq:
+                            try:
+                                symid, key = renc.skesk_decrypt(k, cand_pw)
+                            except wire.WireError:
+                                continue
+                            if symid == cipher and len(key) == rsym.KEYLEN[cipher]:
+                                break
+                        if key is None:
+                            raise wire.WireError('SKESK opens under none of the passphrases used')
                     else:
                         ps = renc.parse_pkesk(p.body)
                         kid = [r for r in RECIPS if keypool.ref_public(r).keyid == ps.keyid][0]
@@ -193,6 +213,7 @@ def shard(arg):
 SCRIPTS = [
     [['enc_key', 1, 9, 'cv25519-0'], ['enc_key', 1, 9, 'cv25519-0'], ['enc_key', 1, 7, 'cv25519-0'], ['enc_key', 1, 2, 'rsa1024-0'], ['enc_key', 1, 9, 'rsa1024-0']],
     [['enc_pass', 1, 9, 8, 0], ['enc_pass', 1, 9, 8, 0], ['enc_pass', 1, 3, 8, 1]],
+    [['enc_multipass', 1, 9, 8, [0, 1], None], ['enc_multipass', 1, 9, 8, [0, 0, 2], 'cv25519-0'], ['enc_multipass', 0, 3, 2, [2, 1], 'rsa1024-0']],
     [['protect', 0, 9, 8, 0], ['protect', 0, 9, 8, 0], ['protect', 0, 7, 8, 2], ['reimport', 0], ['protect', 0, 7, 8, 2], ['protect', 0, 3, 2, 0]],
     [['enc_multi', 2, 8, ['cv25519-0', 'ecdh-p521-0', 'rsa1024-0']], ['enc_multi', 2, 8, ['cv25519-0', 'ecdh-p521-0', 'rsa1024-0']], ['enc_key', 2, 13, 'ecdh-p384-0'], ['enc_key', 2, 4, 'ecdh-k256-0']],
 ]
